@@ -194,7 +194,7 @@ Print Assumptions C02_time_free_pre_D4_refuted.
 (* ---- non-vacuity: the hypotheses are met by concrete non-trivial values ------------------------- *)
 Example C02_nonvacuous :
   let A := mk_poly (sq 0 0 8 8) [mk_hpoly (sq 2 2 6 6)] (Some (mkiv 0 10)) in
-  let B := Ln [(5, 5); (6, 6); (5, 5)] None in                   (* out-and-back path *)
+  let B := Ln [(3, 3); (4, 4); (3, 3)] None in                   (* out-and-back path *)
   let C := mk_poly (sq 4 4 12 12) [] (Some (mkiv 5 15)) in
   valid A /\ valid B /\ valid C /\ is_pt A = false /\ is_area A = true /\
   intersects_shape (-180) A C = Ok true /\ edge_part A C = true /\
@@ -205,7 +205,10 @@ Example C02_nonvacuous :
   sweep hit diamond0 diamond_up = Ok true /\
   is_sub_list [(1, 1); (2, 2)] [(0, 0); (1, 1); (2, 2); (3, 3)] = true.
 Proof.
-  cbv zeta. repeat split; try (vm_compute; (reflexivity || lia)).
+  cbv zeta.
+  repeat match goal with |- _ /\ _ => split end;
+    try (vm_compute; (reflexivity || lia)).
   - exists (0, 0), [(8, 0); (8, 8); (0, 8)]. reflexivity.
-  - apply (ro_rot _ _ (ro_refl _)).
+  - change [(8, 0); (8, 8); (0, 8); (0, 0); (8, 0)] with (rot_closed (sq 0 0 8 8 ++ [(0, 0)])).
+    apply ro_rot, ro_refl.
 Qed.
